@@ -313,7 +313,12 @@ func c19Schedule(x *engine.Exec, bodies []c19Body, ids []int, start, maxPts int)
 	for i, id := range ids {
 		its[i], bufs[i] = c19Prepare(bodies[id])
 	}
-	fresh := c19FreshType()
+	var fresh reflect.Type
+	for _, id := range ids {
+		if bodies[id].runFresh != nil && fresh == nil {
+			fresh = c19FreshType() // only executions that need one pay for a never-freed type
+		}
+	}
 	s := engine.NewSched(x, f, 0)
 	got := make([]string, len(ids))
 	var fns []func()
